@@ -2,7 +2,7 @@
   Driver for C16: a predefined site network (topology regenerated from the working tree), capacities
   and a schedule in; the model's limits, feasibility, aggregate-current magnitudes, per-transformer
   current sums / power / bound, pod and panel sums out.
-  request : {"site":"caltech"|"jpl"|"office001", "caps":[bits…], "vt":bits, "rt":bits,
+  request : {"site":"caltech"|"jpl"|"office001", "voltage":bits, "caps":[bits…], "vt":bits, "rt":bits,
              "S":[[bits…]…]  (one row per station, one column per period)}
 -/
 import AcnModel.Wire
@@ -26,11 +26,12 @@ def handle (j : Json) : Except String Json := do
   let vt ← getF j "vt"
   let rt ← getF j "rt"
   let S ← getFss j "S"
-  match topos.find? (fun T => T.site == site) with
-  | none => throw s!"unknown site {site}"
+  let volt ← getF j "voltage"
+  match topos.find? (fun T => T.site == site && (ratK T.nominalV.1 T.nominalV.2 : Float) == volt) with
+  | none => pure (Json.mkObj [("err", jS "no such topology in the dump")])
   | some T =>
     let static : List (String × Json) :=
-      [("structure_ok", jB (topoOk T)), ("stations", jList jS T.stations), ("names", jList jS T.conNames),
+      [("structure_ok", jB (topoOk T)), ("structure_diag", jList jS ((topoDiag T).take 12)), ("stations", jList jS T.stations), ("names", jList jS T.conNames),
        ("angles", jList (fun (a : Int × Nat) => Json.arr #[jI a.1, jN a.2]) T.angles)]
     match siteNet T r3 caps with
     | .error e => pure (Json.mkObj (("err", jS (errName e)) :: static))
@@ -54,7 +55,9 @@ def handle (j : Json) : Except String Json := do
         let pods := T.pods.map fun p =>
           Json.mkObj [("name", jS p.name), ("sum", jFs (perPeriod S fun v => groupSum p.evses v)),
             ("bound", jF (boundOf T r3 vt rt caps p.row))]
-        pure (Json.mkObj ([("err", Json.null), ("feasible", jB feas), ("limits", jFs N.lims),
+        let feasT := (List.range (Feas.periods S)).map fun t =>
+          feasible T r3 vt rt caps ((period S t).map fun v => [v])
+        pure (Json.mkObj ([("err", Json.null), ("feasible", jB feas), ("feas_t", jList jB feasT), ("limits", jFs N.lims),
           ("bounds", jFs bounds), ("mags", jFss mags), ("xfmrs", Json.arr xf.toArray),
           ("pods", Json.arr pods.toArray)] ++ static))
 
